@@ -299,6 +299,16 @@ pub fn run_c06(a: &Args, out: &PathBuf) -> Value {
                 let typed2 = for_type!(s, S, { conv_res(open().and_then(|r| r.read_as::<S>()), &c) });
                 let conv2 = for_type!(s, S, { conv_res(open().and_then(|r| r.read()).and_then(convert_shapes_to_vec_of::<S>), &c) });
                 traces[i].emit(json!({"ev": "typedseek", "S": s, "k": 1, "typed": typed2, "conv": conv2}));
+                // and through the by-path one-liners, with an index that lists the records in reverse order
+                let dir = out.join(format!("tmp-types-{}", std::process::id()));
+                let _ = std::fs::create_dir_all(&dir);
+                let p = dir.join("f.shp");
+                std::fs::write(&p, &shp).unwrap();
+                std::fs::write(p.with_extension("shx"), bytes_of(&case["shxRev"])).unwrap();
+                let typed3 = for_type!(s, S, { conv_res(shapefile::read_shapes_as::<_, S>(&p), &c) });
+                let conv3 = for_type!(s, S, { conv_res(shapefile::read_shapes(&p).and_then(convert_shapes_to_vec_of::<S>), &c) });
+                traces[i].emit(json!({"ev": "typedseek", "S": s, "k": -1, "typed": typed3, "conv": conv3}));
+                let _ = std::fs::remove_dir_all(&dir);
             }
         }
     }
